@@ -8,7 +8,8 @@ TraceLog == ndJsonDeserialize("trace.ndjson")
 VARIABLES l, viol
 ovars == <<l, viol>>
 Range(s) == {s[i] : i \in DOMAIN s}
-RqOf(e) == [api |-> e.api, perms |-> {<<p[1], p[2]>> : p \in Range(e.perms)}, leasing |-> e.leasing,
+Pairs(s) == {<<p[1], p[2]>> : p \in Range(s)}
+RqOf(e) == [api |-> e.api, perms |-> [allow |-> Pairs(e.perms.allow), deny |-> Pairs(e.perms.deny), dflt |-> e.perms.dflt], leasing |-> e.leasing,
             storeUp |-> e.storeUp, leaseUp |-> e.leaseUp, items |-> e.items, changed |-> Range(e.changed)]
 P(e) == INSTANCE HandlerProps WITH rq <- RqOf(e)
 Names == <<"C24_NoEffect", "C24_AuthError", "C24_NoLeak", "C19_AckOnlyIfHeld", "C19_NoWriteUnlessHeld", "C19_RefusalCode", "C19_NotLeaderForOtherOwner">>
